@@ -759,5 +759,13 @@ func (p *Pair) InPlaceShapes() (classes map[string][]string) {
 }
 
 // HasKnownInPlaceShape is used by checks of other properties to keep C02's known findings out of
-// their verdicts.
-func (p *Pair) HasKnownInPlaceShape() bool { return len(p.InPlaceShapes()) > 0 }
+// their verdicts. Only classes listed as "known" (unrepaired) in the findings file count: both
+// kind-change findings are repaired, so this is false everywhere on the repaired tree.
+func (p *Pair) HasKnownInPlaceShape() bool {
+	for c := range p.InPlaceShapes() {
+		if IsKnown(c) {
+			return true
+		}
+	}
+	return false
+}
